@@ -1363,3 +1363,88 @@ def fields_through_callers(F, body, op, bodies, depth=0):
                         fields |= f2
                         calls += c2
     return fields, calls
+
+
+def loop_filter_idiom(F, body, vec_op):
+    """`let mut kept = Vec::new(); for x in <source> { if pred(.., &x) { kept.push(x) } }` — the explicit spelling of
+    `source.into_iter().filter(pred).collect()`.  For the operand holding `kept` returns
+    {"source": operand iterated, "pred": (site, term) of the guarding call, "push": site} when: the vector starts
+    empty, has exactly one push, that push is in a loop driven by `Iterator::next` whose only exit is the iterator's end,
+    the pushed value is the loop item, and the push is guarded (inside the loop) by exactly one call's `true` result."""
+    l = op_local(vec_op)
+    if l is None:
+        return None
+    v = canon_place(body, {"l": l, "p": []})["l"]
+    defs = body.defs.get(v, [])
+    if not any(k == "call" and callee_is(p, r"Vec::<.*>::new$", r"Vec::<.*>::with_capacity$") for _, k, p in defs):
+        return None
+    pushes = []
+    for s, t in body.calls(lambda t: callee_is(t, r"Vec::<.*>::push$")):
+        rl = op_local(t["args"][0])
+        if rl is not None and canon_place(body, {"l": rl, "p": ["*"]})["l"] == v:
+            pushes.append((s, t))
+    if len(pushes) != 1:
+        return None
+    sp, tp = pushes[0]
+    loops = []
+    for sn, tn in body.calls(lambda t: callee_is(t, r"Iterator::next$")):
+        cyc = natural_loop(body, sn.bb)
+        if sp.bb in cyc:
+            loops.append((len(cyc), sn.bb, sn, tn, cyc))
+    if not loops:
+        return None
+    # the innermost loop containing the push
+    _, _, sn, tn, cyc = min(loops, key=lambda x: (x[0], x[1]))
+    nb = tn["t"]
+    exits = [(x, y) for x in cyc for y in body.succ[x] if y not in cyc]
+    if not exits or not all(x == nb for x, y in exits):
+        return None
+    # the pushed value is the item produced by next()
+    isl = slice_back(body, [tp["args"][1]], stop_calls=[r"Iterator::next$"])
+    if not any(cs == sn for cs, _ in isl.calls):
+        return None
+    gs = [g for g in guards_of(body, sp) if g.bb in cyc and g.bb != nb]
+    preds = []
+    for g in gs:
+        d = g.cond_def()
+        if d and d[0] == "call" and g.polarity() is True:
+            preds.append((d[1], d[2]))
+        else:
+            return None
+    if len(preds) != 1:
+        return None
+    il = op_local(tn["args"][0])
+    if il is None:
+        return None
+    il = canon_place(body, {"l": il, "p": ["*"]})["l"]
+    src = None
+    for _ in range(4):
+        sd = body.single_def(il)
+        if sd and sd[1] == "call" and callee_is(sd[2], r"IntoIterator::into_iter$"):
+            src = sd[2]
+            break
+        if sd and sd[1] == "assign" and sd[2]["rv"]["k"] == "use" and op_local(sd[2]["rv"]["op"]) is not None:
+            il = op_local(sd[2]["rv"]["op"])
+            continue
+        break
+    if src is None:
+        return None
+    return {"source": src["args"][0], "pred": preds[0], "push": sp, "next": sn}
+
+
+def natural_loop(body, h):
+    """Blocks of the natural loop(s) with header `h`: h plus every block that reaches a back-edge source (a predecessor
+    of h dominated by h) without passing through h."""
+    for _ in range(6):
+        if any(h in (body.dom.get(t) or ()) for t in body.pred[h]) or len(body.pred[h]) != 1:
+            break
+        h = body.pred[h][0]
+    loop = {h}
+    work = [t for t in body.pred[h] if h in (body.dom.get(t) or ())]
+    while work:
+        x = work.pop()
+        if x in loop:
+            continue
+        loop.add(x)
+        work.extend(body.pred[x])
+    return loop
